@@ -103,6 +103,39 @@ Theorem C02_wrapper_mirror_is_rendered_capture :
     ro_out_stream (run_model_inc i) = render eo (ro_stdout (run_model_inc i)).
 Proof. exact wrapper_mirror_is_rendered_capture. Qed.
 
+(** Pty asked for vs pty in effect.  [Local.should_use_pty] is the documented rule: a pty is
+    in effect iff one was asked for and (sys.stdin has a fileno or fallback is switched off). *)
+Theorem C02_pty_rule :
+  forall pty stdin_fileno fallback,
+    should_use_pty pty stdin_fileno fallback = pty_in_effect pty stdin_fileno fallback.
+Proof. exact pty_rule. Qed.
+
+(** The set of streams that are read follows what is IN EFFECT: with plain pipes -- also
+    when a pty had been asked for and the run fell back -- stderr is captured in full ... *)
+Theorem C02_pipes_stderr_captured :
+  forall i, using_pty i = false ->
+    ro_stderr (run_model_inc i) = decode_all (ri_enc i) (stream_bytes (ri_err i)).
+Proof. exact pipes_stderr_captured. Qed.
+
+(** ... under a pty there is no stderr pipe: nothing captured, submitted or forwarded *)
+Theorem C02_pty_stderr_empty :
+  forall i, using_pty i = true ->
+    ro_stderr (run_model_inc i) = [] /\ ro_err_submits (run_model_inc i) = [] /\
+    ro_err_stream (run_model_inc i) = [].
+Proof. exact pty_stderr_empty. Qed.
+
+(** ... and the request, sys.stdin and the fallback option matter only through it: a run
+    whose pty request fell back to pipes is observably a run that never asked for one. *)
+Theorem C02_run_depends_on_pty_in_effect :
+  forall i p f b p' f' b', pty_in_effect p f b = pty_in_effect p' f' b' ->
+    run_model_inc (with_pty_request i p f b) = run_model_inc (with_pty_request i p' f' b').
+Proof. exact run_depends_on_pty_in_effect. Qed.
+
+Theorem C02_fallback_run_is_plain_run :
+  forall i f b,
+    run_model_inc (with_pty_request i true false true) = run_model_inc (with_pty_request i false f b).
+Proof. exact fallback_run_is_plain_run. Qed.
+
 (** Flagship: the run model satisfies the executable spec on ALL inputs
     (all mirror-stream encodings and kinds included). *)
 Theorem C02_run_meets_spec : forall i, spec_in i (run_model_inc i) = true.
@@ -116,14 +149,14 @@ Proof. vm_compute. reflexivity. Qed.
 
 Example C02_ex_run :          (* characters cut by read boundaries on both streams, stderr hidden *)
   let i := mkIn Utf8 [RChunk [195]; RExit; RChunk [169; 226]; RChunk [130; 172]] [RChunk [255]; RChunk [240; 159]]
-                HErr false false false false (mkMirror MNone false) (mkMirror MNone false) in
+                HErr false false false true true false (mkMirror MNone false) (mkMirror MNone false) in
   run_model_inc i = mkObs [233; 8364] [REPL; REPL] [233; 8364] [] [[233]; [233; 8364]] [[REPL]; [REPL; REPL]].
 Proof. vm_compute. reflexivity. Qed.
 
 Example C02_ex_mirror :       (* e-acute cut by a read, euro sign, an invalid byte; an ASCII recording stream on
                                  stdout gets the text itself, an ASCII backslashreplace wrapper on stderr its escapes *)
   let i := mkIn Utf8 [RChunk [195]; RChunk [169; 226; 130; 172; 255]] [RChunk [195; 169]; RExit; RChunk [240; 159; 152; 128]]
-                HNone false false false false (mkMirror MAscii false) (mkMirror MAscii true) in
+                HNone false false false true true false (mkMirror MAscii false) (mkMirror MAscii true) in
   run_model_inc i =
   mkObs [233; 8364; REPL] [233; 128512] [233; 8364; REPL]
         [92; 120; 101; 57;  92; 85; 48; 48; 48; 49; 102; 54; 48; 48]        (* \xe9\U0001f600 *)
@@ -131,6 +164,18 @@ Example C02_ex_mirror :       (* e-acute cut by a read, euro sign, an invalid by
   ro_out_stream (run_model_inc (with_mirrors i (mkMirror MCp1252 true) (mkMirror MLatin1 false)))
   = [233; 8364; 92; 117; 102; 102; 102; 100].                              (* e-acute, euro, \ufffd *)
 Proof. vm_compute. split; reflexivity. Qed.
+
+Example C02_ex_pty_fallback : (* the same command: pty asked for and in effect (no stderr pipe); asked for but
+                                 sys.stdin has no fileno -> pipes, stderr captured and forwarded; the same with
+                                 fallback switched off -> pty after all *)
+  let i := mkIn Utf8 [RChunk [111]; RExit] [RChunk [195]; RChunk [169; 10]]
+                HNone false false true true true false (mkMirror MNone false) (mkMirror MNone false) in
+  using_pty i = true /\
+  run_model_inc i = mkObs [111] [] [111] [] [[111]] [] /\
+  using_pty (with_pty_request i true false true) = false /\
+  run_model_inc (with_pty_request i true false true) = mkObs [111] [233; 10] [111] [233; 10] [[111]] [[233; 10]] /\
+  run_model_inc (with_pty_request i true false false) = run_model_inc i.
+Proof. vm_compute. repeat split; reflexivity. Qed.
 
 (** * Historical record: the per-read loop before the fix of F-C02
     ([self.decode(data)] once per read, a fresh decoder each time). *)
